@@ -17,6 +17,8 @@ import (
 	commitmenttypesv2 "github.com/cosmos/ibc-go/v11/modules/core/23-commitment/types/v2"
 	host "github.com/cosmos/ibc-go/v11/modules/core/24-host"
 	"github.com/cosmos/ibc-go/v11/modules/light-clients/attestations"
+
+	"verif/harness/lib"
 )
 
 // ASig is the abstract signature of Attestations.tla.
@@ -91,7 +93,7 @@ type AttestWorld struct {
 }
 
 func attKey(name string) *ecdsa.PrivateKey {
-	h := sha256.Sum256([]byte("verif-attestor-" + name))
+	h := sha256.Sum256([]byte("verif-attestor-" + lib.EnvStr("VERIF_SEED", "1") + "-" + name))
 	k, err := crypto.ToECDSA(h[:])
 	if err != nil {
 		panic(err)
